@@ -521,7 +521,7 @@ def refusal_case(ctx, index, rng: random.Random):
 
     rec = ctx.rec
     rec.mon("C20.artists")
-    kind = rng.choice(["1d_as_map", "2d_as_bar", "unknown_backend", "unknown_kind", "2d_as_hbar", "1d_as_image", "plotly_2d_as_bar", "plotly_1d_as_map"])
+    kind = rng.choice(["1d_as_map", "2d_as_bar", "unknown_backend", "unknown_kind", "2d_as_hbar", "1d_as_image", "plotly_2d_as_bar", "plotly_1d_as_map", "image_gapped"])
     h1, _ = make_1d(rng)
     h2 = make_2d(rng)
     raised = False
@@ -562,6 +562,12 @@ def refusal_case(ctx, index, rng: random.Random):
                     h2.plot("hbar", backend="ascii")
             elif kind == "1d_as_image":
                 h1.plot("image", backend="matplotlib")
+            elif kind == "image_gapped":
+                # equal-width bins with a gap: one pixel per bin cannot sit at the bins' positions (map can, image must refuse)
+                import physt
+
+                hg = physt.h2(np.array([0.5, 1.5, 5.5, 5.6]), np.array([0.5, 0.5, 1.5, 0.5]), [np.array([[0.0, 1.0], [1.0, 2.0], [5.0, 6.0]]), np.array([0.0, 1.0, 2.0])])
+                hg.plot("image", backend="matplotlib")
             elif kind == "plotly_2d_as_bar":
                 h2.plot("bar", backend="plotly")
             else:
